@@ -634,3 +634,105 @@ Section Dyn16.
       apply (shard_unique hidx cs1 cs2 Hw1 Hw2). intros x. rewrite (Hs1 x), (Hs2 x). apply Hs.
   Qed.
 End Dyn16.
+
+(* ------------------------------------------------------------------ *)
+(** * top-level statements *)
+
+(** every history: sharded as the rule says after each edit, threshold kept, edits succeed *)
+Theorem history_meets_spec : forall c hidx ops,
+  (forall a b, llen (hidx a) = llen (hidx b)) -> (forall a, hidx a <> []) -> rule c [] = false ->
+  ops_ok hidx [] ops (snd (run16 fl_spec c hidx (init16 c) ops)) ->
+  spec_hist c [] ops (snd (run16 fl_spec c hidx (init16 c) ops)) = true.
+Proof.
+  intros c hidx ops Hlen Hpos He Hok.
+  exact (proj1 (run16_ok c hidx Hlen Hpos He ops (init16 c) [] (init_inv c hidx He) Hok)).
+Qed.
+
+(** two histories that leave the same entries leave the same root *)
+Theorem dynamic_canonical : forall c hidx ops1 ops2,
+  (forall a b, llen (hidx a) = llen (hidx b)) -> (forall a, hidx a <> []) -> rule c [] = false ->
+  ops_ok hidx [] ops1 (snd (run16 fl_spec c hidx (init16 c) ops1)) ->
+  ops_ok hidx [] ops2 (snd (run16 fl_spec c hidx (init16 c) ops2)) ->
+  same (final_map [] ops1 (snd (run16 fl_spec c hidx (init16 c) ops1)))
+       (final_map [] ops2 (snd (run16 fl_spec c hidx (init16 c) ops2))) ->
+  repr_of c (fst (run16 fl_spec c hidx (init16 c) ops1)) = repr_of c (fst (run16 fl_spec c hidx (init16 c) ops2)).
+Proof.
+  intros c hidx ops1 ops2 Hlen Hpos He H1 H2 Hs.
+  pose proof (proj2 (run16_ok c hidx Hlen Hpos He ops1 (init16 c) [] (init_inv c hidx He) H1)) as I1.
+  pose proof (proj2 (run16_ok c hidx Hlen Hpos He ops2 (init16 c) [] (init_inv c hidx He) H2)) as I2.
+  exact (inv_repr c hidx _ _ _ _ I1 I2 Hs).
+Qed.
+
+(** the directory is a HAMT exactly when the rule holds for its entries (dynamic directories) *)
+Theorem sharded_iff : forall c hidx ops,
+  (forall a b, llen (hidx a) = llen (hidx b)) -> (forall a, hidx a <> []) -> rule c [] = false ->
+  g_dynamic c = true ->
+  ops_ok hidx [] ops (snd (run16 fl_spec c hidx (init16 c) ops)) ->
+  is_hamt16 (fst (run16 fl_spec c hidx (init16 c) ops)) =
+  rule c (final_map [] ops (snd (run16 fl_spec c hidx (init16 c) ops))).
+Proof.
+  intros c hidx ops Hlen Hpos He Hd Hok.
+  pose proof (proj2 (run16_ok c hidx Hlen Hpos He ops (init16 c) [] (init_inv c hidx He) Hok)) as [_ [_ HI]].
+  destruct (fst (run16 fl_spec c hidx (init16 c) ops)) as [l es th|cs tl sc th]; cbn [is_hamt16].
+  - destruct HI as [_ [_ [_ [_ [_ Hr]]]]]. symmetry. exact Hr.
+  - destruct HI as [_ [_ [_ [_ Hr]]]]. symmetry. exact (Hr Hd).
+Qed.
+
+(* ------------------------------------------------------------------ *)
+(** * the four defects: each flag, switched on alone, breaks the specification *)
+Local Open Scope string_scope.
+Definition whidx (k : name) : list Z :=
+  match k with
+  | EmptyString => [0; 0]
+  | String ch _ => [Z.of_N (N_of_ascii ch); Z.of_nat (String.length k)]
+  end.
+Fixpoint rep (n : nat) (ch : ascii) : string := match n with O => EmptyString | S n' => String ch (rep n' ch) end.
+Definition v34 := mkval 0 34 10.
+Definition v36 := mkval 1 36 10.
+Definition v8 := mkval 2 8 4.
+Definition cfgL (th : Z) := mkcfg16 8 2%nat 0 262144 th 0 4 true.      (* width 256, links mode *)
+Definition cfgB (th : Z) := mkcfg16 8 2%nat 0 262144 th 1 4 true.      (* width 256, block mode *)
+
+(** C16-1: four 46-byte entries + one 45-byte entry = 229 = threshold; a sixth entry makes it a
+    HAMT; removing the 45-byte one converts back although 230 bytes remain *)
+Definition w1_ops := [AAdd (rep 12 "a") v34; AAdd (rep 12 "b") v34; AAdd (rep 12 "c") v34; AAdd (rep 12 "d") v34;
+                      AAdd (rep 11 "m") v34; AAdd (rep 12 "e") v34; ARemove (rep 11 "m")].
+(** C16-2: a replacement by a smaller value converts HAMT -> basic through AddChild: threshold lost *)
+Definition w2_ops := [AAdd (rep 6 "a") v34; AAdd (rep 26 "x") v34; AAdd (rep 4 "b") v36; AAdd (rep 4 "b") v8].
+(** C16-3: 80 bytes under a threshold of 100; X (44 bytes) makes it a HAMT; a 10-byte entry is
+    added and X removed: 90 bytes, but the net change since the conversion is +10: stays a HAMT *)
+Definition w3_ops := [AAdd (rep 6 "a") v34; AAdd (rep 6 "b") v34; AAdd (rep 10 "x") v34; AAdd (rep 2 "y") v8; ARemove (rep 10 "x")].
+(** C16-4: block mode; one add and three removals since the conversion *)
+Definition w4_ops := [AAdd (rep 6 "a") v34; AAdd (rep 6 "b") v34; AAdd (rep 6 "c") v34; AAdd (rep 6 "d") v34;
+                      AAdd (rep 96 "x") v34; ARemove (rep 6 "a"); ARemove (rep 6 "b"); ARemove (rep 6 "c")].
+
+Lemma prefix_refuted :
+  model_meets (mkflags16 true false false false) (cfgL 229) whidx w1_ops = false /\
+  model_meets fl_spec (cfgL 229) whidx w1_ops = true.
+Proof. vm_compute. split; reflexivity. Qed.
+Lemma thresh_refuted :
+  model_meets (mkflags16 false true false false) (cfgL 112) whidx w2_ops = false /\
+  model_meets fl_spec (cfgL 112) whidx w2_ops = true.
+Proof. vm_compute. split; reflexivity. Qed.
+Lemma gate_refuted :
+  model_meets (mkflags16 false false true false) (cfgL 100) whidx w3_ops = false /\
+  model_meets fl_spec (cfgL 100) whidx w3_ops = true.
+Proof. vm_compute. split; reflexivity. Qed.
+Lemma units_refuted :
+  model_meets (mkflags16 false false true true) (cfgB 196) whidx w4_ops = false /\
+  model_meets (mkflags16 false false true false) (cfgB 196) whidx w4_ops = true /\
+  model_meets fl_spec (cfgB 196) whidx w4_ops = true.
+Proof. vm_compute. repeat split; reflexivity. Qed.
+
+(** the hypotheses of the theorems hold for these witnesses *)
+Lemma whidx_len : forall a b, llen (whidx a) = llen (whidx b).
+Proof. intros [|x a] [|y b]; reflexivity. Qed.
+Lemma whidx_pos : forall a, whidx a <> [].
+Proof. intros [|x a]; discriminate. Qed.
+Lemma witness_hyps :
+  rule (cfgL 229) [] = false /\
+  ops_ok whidx [] w1_ops (snd (run16 fl_spec (cfgL 229) whidx (init16 (cfgL 229)) w1_ops)) /\
+  ops_ok whidx [] w4_ops (snd (run16 fl_spec (cfgB 196) whidx (init16 (cfgB 196)) w4_ops)).
+Proof.
+  split; [reflexivity|]. split; cbn [w1_ops w4_ops]; vm_compute; repeat split; try discriminate; try reflexivity; try (intros H; discriminate H).
+Qed.
